@@ -96,10 +96,16 @@ def analyse(ctx, d: Def, self_cls):
 
 def run(ctx, col, tier):
     repo = ctx.repo
+    from ..rules import smalllints as _small_own
+    col.rule("R-OWNLIST", "every tree object has its own comment list: the constructor binds a fresh list to self.comments on every path (the class-level default list is shared by "
+             "all objects that do not); edits of one side's comments cannot leak into the other", floor=1)
+    _small_own.own_container_on_every_path(ctx, col, "R-OWNLIST", "swcgeom.core.swc.DictSWC", "comments", "every DictSWC / Tree gets its own comment list")
     from ..rules import endpoints as _endpoints
     _endpoints.run(ctx, col, ('swcgeom.core.tree', 'swcgeom.core.path', 'swcgeom.core.branch', 'swcgeom.core.node', 'swcgeom.core.tree_utils', 'swcgeom.core.tree_utils_impl', 'swcgeom.core.swc_utils.base', 'swcgeom.core.swc_utils.subtree', 'swcgeom.core.swc_utils.normalizer', 'swcgeom.core.swc_utils.io'))
     from ..rules import stateless as _stateless_memo
     _stateless_memo.run_memo(ctx, col)
+    from ..rules import stale as _stale
+    _stale.run(ctx, col, ('swcgeom.core.tree_utils', 'swcgeom.core.tree_utils_impl', 'swcgeom.transforms.tree', 'swcgeom.transforms.path', 'swcgeom.transforms.branch_tree'))
     from ..rules import smalllints as _small
     _small.run_rounds(ctx, col, ('swcgeom.core.swc_utils.subtree', 'swcgeom.core.swc_utils.base', 'swcgeom.core.swc_utils.normalizer', 'swcgeom.core.tree_utils', 'swcgeom.core.tree_utils_impl'))
     from ..rules import rowslice as _rowslice
